@@ -32,7 +32,7 @@ def recv_entries(prog):
 
 def r1(ctx, prog):
     ctx.rule('C12.R1', 'A8: no exception escapes the receive path (parse, onTcpReceived, onTcpSendCompleted, commitRespond, connect/disconnect '
-                       'handlers): every may-throw std call is caught, proven in range, or a confirmed table exception', floor=8)
+                       'handlers): every may-throw std call is caught, proven in range, or a confirmed table exception', floor=1)
     entries = [prog.fn1(PARSER + '::parse')] + [prog.fn1(IMPL + '::' + n) for n in
                ('onTcpReceived', 'onTcpSendCompleted', 'commitRespond', 'onTcpConnected', 'onTcpDisconnected', 'handle')]
     entries += [f for f in prog.fn(CTXC + '::~Context', required=True)]
@@ -52,6 +52,9 @@ def r1(ctx, prog):
         ctx.ob('C12.R1', key, False, '%s may throw %s, not caught on the chain %s' % (fd['label'], '/'.join(fd['types']), ' -> '.join(fd['chain'][-4:])), where=f.loc(st['i']))
     ctx.stats['may_throw_sites'] = eng.sites
     ctx.stats['functions_on_receive_path'] = eng.functions
+    ctx.ob('C12.R1', IMPL + '|scanned', True, '%d functions reachable from the receive/commit entries, %d may-throw sites' % (eng.functions, eng.sites))
+    if eng.functions < 20:
+        raise AnalysisBroken('receive-path call graph too small (%d functions)' % eng.functions)
     unused = set(EXC_TABLE) - eng.used_exceptions
     if unused:
         ctx.note('unused exception-table entries (code changed): %s' % sorted(unused))
